@@ -62,6 +62,11 @@ fn nt_c12(r: &RunOut) -> bool {
     crate::oracle::probe_c12(&Ix::new(r))
 }
 
+fn nt_c15(r: &RunOut) -> bool {
+    let ix = Ix::new(r);
+    r.plan.tags.len() >= 2 || ix.eps.iter().any(|e| matches!(e.pkt, crate::refcodec::Pkt::Disconnect(_)))
+}
+
 fn nt_c14(r: &RunOut) -> bool {
     crate::oracle::probe_c14(&Ix::new(r))
 }
@@ -169,6 +174,16 @@ pub fn spec(id: &str) -> Option<PropSpec> {
             nontrivial: nt_c12,
             assumptions: base,
         },
+        "C15" => PropSpec {
+            id: "C15",
+            level: "exploration",
+            families: vec![(Family::C15, 70), (Family::C07, 30)],
+            quick_runs: 30_000,
+            thorough_runs: 2_500_000,
+            rule: "MQTT 5 roles only. One run = some ordinary traffic plus 1..3 close initiators in a seeded order: application close / close_with_reason / close_with_no_reason / force_close (once or twice), protocol handler asking to disconnect, failing handler, control(Stop) answering none / own DISCONNECT / error (gated in half of the runs), peer DISCONNECT with or without a (mis-placed) session expiry, undecodable bytes, duplicate CONNECT/CONNACK, and the causes with a dedicated reason code: keep-alive expiry (0x8D), packet too large (0x95), receive maximum exceeded (0x93), QoS not supported (0x9B), retain not supported (0x9A), subscription identifiers not supported (0xA1), unknown topic alias (0x94); violating publishes carry payloads that arrive in pieces. Oracle on the peer-side packet stream: at most one DISCONNECT and nothing after it (monitors on every run of every family), none after the peer's DISCONNECT was received, never 0x00 when the connection ends for an error and the application supplied no packet, the dedicated code for the cause named in the Stop notification and - when it is the only thing injected - for the injected cause; distinct = distinct abstract history signature; non-trivial = the endpoint wrote a DISCONNECT or two initiators took part",
+            nontrivial: nt_c15,
+            assumptions: base,
+        },
         "C16" => PropSpec {
             id: "C16",
             level: "exploration",
@@ -185,4 +200,4 @@ pub fn spec(id: &str) -> Option<PropSpec> {
     })
 }
 
-pub const ALL: [&str; 11] = ["C03", "C04", "C05", "C06", "C07", "C08", "C11", "C12", "C13", "C14", "C16"];
+pub const ALL: [&str; 12] = ["C03", "C04", "C05", "C06", "C07", "C08", "C11", "C12", "C13", "C14", "C15", "C16"];
